@@ -436,3 +436,162 @@ package channel
 //@   ensures paramsCloned(result.params, m.params)
 //@   ensures txCloned(result.stagingTX, m.stagingTX)
 //@   ensures txCloned(result.currentTX, m.currentTX)
+
+// ---------------------------------------------------------------------------
+// Valid successor states (C02)
+// ---------------------------------------------------------------------------
+
+//@ pred nonNeg(b []Bal) = forall i int :: 0 <= i && i < len(b) ==> val(b[i]) >= 0
+
+// validAlloc: the well-formedness rules of an allocation (dimensions, limits, non-negative amounts).
+//@ pred validAlloc(a Allocation) =
+//@   len(a.Assets) > 0 && len(a.Assets) <= MaxNumAssets && len(a.Locked) <= MaxNumSubAllocations &&
+//@   len(a.Balances) == len(a.Assets) && len(a.Balances[0]) > 0 && len(a.Balances[0]) <= MaxNumParts &&
+//@   (forall i int :: 0 <= i && i < len(a.Balances) ==> len(a.Balances[i]) == len(a.Balances[0])) &&
+//@   (forall i int :: 0 <= i && i < len(a.Balances) ==> nonNeg(a.Balances[i])) &&
+//@   (forall l int :: 0 <= l && l < len(a.Locked) ==> len(a.Locked[l].Bals) == len(a.Assets)) &&
+//@   (forall l int :: 0 <= l && l < len(a.Locked) ==> nonNeg(a.Locked[l].Bals))
+
+//@ func (SubAlloc).Valid
+//@   requires nonNilBals(s.Bals)
+//@   ensures result == nil <==> len(s.Bals) <= MaxNumAssets && nonNeg(s.Bals)
+//@   loop 1
+//@     invariant forall k int :: 0 <= k && k < $i ==> val(s.Bals[k]) >= 0
+
+//@ func (Allocation).Valid
+//@   requires nonNilBalances(a.Balances) && nonNilLocked(a.Locked)
+//@   ensures result == nil <==> validAlloc(a)
+//@   loop 1
+//@     invariant forall k int :: 0 <= k && k < $i ==> len(a.Balances[k]) == numParts && nonNeg(a.Balances[k])
+//@   loop 2
+//@     invariant 0 <= i && i < len(a.Balances) && len(asset) == numParts && asset == a.Balances[i] && forall l int :: 0 <= l && l < $i ==> val(asset[l]) >= 0
+//@   loop 3
+//@     invariant forall k int :: 0 <= k && k < $i ==> len(a.Locked[k].Bals) == n && nonNeg(a.Locked[k].Bals)
+
+// Apps (interface contracts, assumed for third-party apps).
+//@ ghost func appDef(a App) AppID
+//@ ghost func appIDEq(a AppID, b AppID) bool
+//@ ghost func appTransOK(a StateApp, p *Params, from *State, to *State, actor Index) bool
+//@ ghost func appInitOK(a StateApp, p *Params, s *State) bool
+//@ interface App
+//@   method Def
+//@     requires recv != nil && typeof(recv) != typetag("noApp")
+//@     ensures result == appDef(recv) && result != nil
+//@ end
+//@ interface AppID
+//@   method Equal
+//@     requires recv != nil
+//@     ensures result == appIDEq(recv, arg0)
+//@ end
+//@ interface StateApp
+//@   method ValidTransition
+//@     requires recv != nil
+//@     ensures (result == nil) == appTransOK(recv, arg0, arg1, arg2, arg3)
+//@   method ValidInit
+//@     requires recv != nil
+//@     ensures (result == nil) == appInitOK(recv, arg0, arg1)
+//@ end
+
+//@ pred isNoApp(a App) = typeof(a) == typetag("noApp")
+//@ pred appEq(e App, a App) = (isNoApp(e) && isNoApp(a)) || (!isNoApp(e) && !isNoApp(a) && appIDEq(appDef(e), appDef(a)))
+
+//@ func AppShouldEqual
+//@   requires expected != nil && actual != nil
+//@   ensures result == nil <==> appEq(expected, actual)
+
+// sumsEq(cur, to): for every asset, participant balances plus locked funds have the same total in both allocations.
+// (Allocation.Sum / Balances.Sum / polybig.EqualSum: see the summation contracts.)
+//@ ghost func sumsEqAlloc(cur Allocation, to Allocation) bool
+//@ ghost func sumDimsEq(cur Allocation, to Allocation) bool
+//@ pred sumsEq(cur *State, to *State) = sumDimsEq(cur.Allocation, to.Allocation) && sumsEqAlloc(cur.Allocation, to.Allocation)
+
+// validSucc: the generic transition rules of the statement.
+//@ pred validSucc(m *machine, to *State) =
+//@   to.ID == m.params.id && appEq(m.params.App, to.App) && !m.currentTX.State.IsFinal &&
+//@   to.Version == m.currentTX.State.Version + 1 && validAlloc(to.Allocation) &&
+//@   assetsEq(m.currentTX.State.Assets, to.Assets) && sumsEq(m.currentTX.State, to)
+
+//@ pred stateWF(s *State) = s != nil && s.App != nil && nonNilAssets(s.Assets) && nonNilBalances(s.Balances) && nonNilLocked(s.Locked)
+
+//@ func (*machine).ValidTransition
+//@   requires machInv(m) && m.params.App != nil && stateWF(m.currentTX.State) && stateWF(to)
+//@   requires m.currentTX.State.Version < 18446744073709551615
+//@   ensures result == nil <==> validSucc(m, to)
+
+// smWF: what a StateMachine needs besides the machine invariant.
+//@ pred smWF(m *StateMachine) = m.machine != nil && machInv(m.machine) && m.app != nil && m.params.App != nil
+
+// validSuccSM: the complete rule of the regular update path (statement of C02):
+// existing participant as actor, generic rules, app rule.
+//@ pred validSuccSM(m *StateMachine, to *State, actor Index) =
+//@   actor < len(m.params.Parts) && validSucc(m.machine, to) && appTransOK(m.app, &m.machine.params, m.currentTX.State, to, actor)
+
+//@ func (*StateMachine).validTransition
+//@   requires smWF(m) && stateWF(m.currentTX.State) && stateWF(to) && m.currentTX.State.Version < 18446744073709551615
+//@   ensures err == nil <==> validSuccSM(m, to, actor)
+
+// staged(m, s): s is staged with a fresh, empty signature list; the current transaction is untouched.
+//@ pred staged(m *machine, s *State, ph Phase) =
+//@   m.phase == ph && m.stagingTX.State == s && fresh(arr(m.stagingTX.Sigs)) && len(m.stagingTX.Sigs) == len(m.params.Parts) &&
+//@   allNil(m.stagingTX.Sigs) && sameTX(m.currentTX, old(m.currentTX)) && sigsSame(m.currentTX.Sigs)
+
+//@ func (*StateMachine).Update
+//@   requires smWF(m) && stateWF(stagingState) && (m.phase == Acting ==> stateWF(m.currentTX.State) && m.currentTX.State.Version < 18446744073709551615)
+//@   modifies m.machine.phase, m.machine.stagingTX
+//@   ensures machInv(m.machine)
+//@   ensures result == nil <==> old(m.phase == Acting && validSuccSM(m, stagingState, actor))
+//@   ensures result == nil ==> staged(m.machine, stagingState, Signing)
+//@   ensures result != nil ==> unchanged(m.machine)
+
+//@ func (*StateMachine).ForceUpdate
+//@   requires smWF(m) && stagingState != nil && m.currentTX.State != nil
+//@   modifies m.machine.phase, m.machine.stagingTX
+//@   ensures machInv(m.machine)
+//@   ensures result == nil && staged(m.machine, stagingState, Signing)
+
+//@ func (*StateMachine).CheckUpdate
+//@   requires smWF(m) && stateWF(m.currentTX.State) && stateWF(state) && m.currentTX.State.Version < 18446744073709551615 && sigIdx < len(m.params.Parts)
+//@   ensures result == nil <==> validSuccSM(m, state, actor) &&
+//@           (forall b wallet.BackendID :: has(m.params.Parts[sigIdx], b) ==> verifyOK(m.params.Parts[sigIdx][b], state, sig))
+//@   ensures unchanged(m.machine)
+//@   loop 1
+//@     modifies
+//@     invariant forall b wallet.BackendID :: visited(b) ==> verifyOK(m.params.Parts[sigIdx][b], state, sig)
+
+// newState: version 0, the channel's ID and app, the given allocation and data; refused unless
+// the allocation is well-formed with one balance per participant.
+//@ func newState
+//@   requires params != nil && nonNilBalances(initBals.Balances) && nonNilLocked(initBals.Locked)
+//@   ensures result1 == nil <==> validAlloc(initBals) && (forall i int :: 0 <= i && i < len(initBals.Balances) ==> len(initBals.Balances[i]) == len(params.Parts))
+//@   ensures result1 != nil ==> result0 == nil
+//@   ensures result1 == nil ==> result0 != nil && fresh(result0) && result0.Version == 0 && result0.ID == params.id && result0.App == params.App &&
+//@           result0.Data == initData && !result0.IsFinal && result0.Allocation == initBals
+//@   loop 1
+//@     invariant forall k int :: 0 <= k && k < $i ==> len(initBals.Balances[k]) == n
+
+//@ func (*StateMachine).Init
+//@   requires smWF(m) && nonNilBalances(initBals.Balances) && nonNilLocked(initBals.Locked)
+//@   modifies m.machine.phase, m.machine.stagingTX
+//@   ensures machInv(m.machine)
+//@   ensures result == nil ==> old(m.phase) == InitActing && m.phase == InitSigning && m.stagingTX.State != nil && fresh(m.stagingTX.State) &&
+//@           m.stagingTX.State.Version == 0 && m.stagingTX.State.ID == m.params.id && m.stagingTX.State.Allocation == initBals && validAlloc(initBals) &&
+//@           (forall i int :: 0 <= i && i < len(initBals.Balances) ==> len(initBals.Balances[i]) == len(m.params.Parts)) &&
+//@           appInitOK(m.app, &m.machine.params, m.stagingTX.State)
+//@   ensures result == nil ==> staged(m.machine, m.stagingTX.State, InitSigning)
+//@   ensures old(m.phase) != InitActing ==> result != nil
+//@   ensures result != nil ==> unchanged(m.machine)
+
+//@ pred accNonNil(acc map[wallet.BackendID]wallet.Account) = forall b wallet.BackendID :: has(acc, b) ==> acc[b] != nil
+
+//@ func AddressMapfromAccountMap
+//@   requires accNonNil(accs)
+//@   ensures result != nil && fresh(result)
+//@   loop 1
+//@     modifies addresses[*]
+//@     invariant true
+
+//@ func newMachine
+//@   requires accNonNil(acc) && partsNonNil(params.Parts) && len(params.Parts) <= 65535
+//@   ensures result1 != nil ==> result0 == nil
+//@   ensures result1 == nil ==> result0 != nil && fresh(result0) && machInv(result0) && result0.phase == InitActing &&
+//@           emptyTX(result0.stagingTX) && emptyTX(result0.currentTX) && result0.params == params && result0.acc == acc
